@@ -1,5 +1,644 @@
 package sshcauth
 
-import "verif/mon"
+import (
+	"bytes"
+	"errors"
+	"fmt"
+	"math/rand/v2"
+	"slices"
+	"strings"
+	"sync"
+	"time"
 
-func runSetupB(m *mon.M) {}
+	"golang.org/x/crypto/ssh"
+	"verif/mon"
+	"verif/ref/cauth"
+)
+
+// Setup B: the real client against the real Go server (ssh.NewServerConn) with
+// partial-success chains. Completeness direction: what is compatible must
+// authenticate, what is not must fail with an error on both sides, never hang.
+
+type bStep struct {
+	alts     []string // methods that pass this step
+	password string
+	keys     [][]byte // authorised plain public key blobs
+	trustCA  bool     // certificates of the trusted CA are accepted
+	kiRounds int
+}
+
+type bServer struct {
+	steps    []*bStep
+	pkAlgos  []string // nil: package default
+	maxTries int
+	banner   bool
+}
+
+func (b *bServer) describe() map[string]any {
+	var st []string
+	for _, s := range b.steps {
+		d := strings.Join(s.alts, "|")
+		if slices.Contains(s.alts, "publickey") {
+			var ks []string
+			for _, k := range s.keys {
+				ks = append(ks, blobID(k))
+			}
+			d += fmt.Sprintf("{keys=%s ca=%v}", strings.Join(ks, ","), s.trustCA)
+		}
+		st = append(st, d)
+	}
+	return map[string]any{"chain": st, "public_key_auth_algorithms": b.pkAlgos, "max_auth_tries": b.maxTries}
+}
+
+// bRecord is what the server callbacks saw.
+type bRecord struct {
+	mu     sync.Mutex
+	passed []string // "method[/key format]" per passed step
+}
+
+var errBReject = errors.New("c34: credentials rejected")
+
+func (b *bServer) config(rec *bRecord) *ssh.ServerConfig {
+	loadPool()
+	var callbacks func(i int) ssh.ServerAuthCallbacks
+	ok := func(i int, what string) (*ssh.Permissions, error) {
+		rec.mu.Lock()
+		rec.passed = append(rec.passed, what)
+		rec.mu.Unlock()
+		if i == len(b.steps)-1 {
+			return &ssh.Permissions{Extensions: map[string]string{"c34-steps": fmt.Sprint(i + 1)}}, nil
+		}
+		return nil, &ssh.PartialSuccessError{Next: callbacks(i + 1)}
+	}
+	callbacks = func(i int) ssh.ServerAuthCallbacks {
+		st := b.steps[i]
+		var cb ssh.ServerAuthCallbacks
+		if slices.Contains(st.alts, "password") {
+			cb.PasswordCallback = func(c ssh.ConnMetadata, pw []byte) (*ssh.Permissions, error) {
+				if string(pw) == st.password {
+					return ok(i, "password")
+				}
+				return nil, errBReject
+			}
+		}
+		if slices.Contains(st.alts, "keyboard-interactive") {
+			cb.KeyboardInteractiveCallback = func(c ssh.ConnMetadata, ch ssh.KeyboardInteractiveChallenge) (*ssh.Permissions, error) {
+				for round := 0; round < st.kiRounds; round++ {
+					qs := []string{fmt.Sprintf("q%d-%d", i, round)}
+					if round%2 == 1 {
+						qs = append(qs, "second")
+					}
+					ans, err := ch("name", "instruction", qs, make([]bool, len(qs)))
+					if err != nil {
+						return nil, err
+					}
+					if len(ans) != len(qs) {
+						return nil, errBReject
+					}
+					for j := range qs {
+						if ans[j] != "answer:"+qs[j] {
+							return nil, errBReject
+						}
+					}
+				}
+				return ok(i, "keyboard-interactive")
+			}
+		}
+		if slices.Contains(st.alts, "publickey") {
+			checker := &ssh.CertChecker{
+				IsUserAuthority: func(auth ssh.PublicKey) bool {
+					return st.trustCA && bytes.Equal(auth.Marshal(), caKey.blob)
+				},
+				UserKeyFallback: func(c ssh.ConnMetadata, key ssh.PublicKey) (*ssh.Permissions, error) {
+					for _, k := range st.keys {
+						if bytes.Equal(k, key.Marshal()) {
+							return nil, nil
+						}
+					}
+					return nil, errBReject
+				},
+			}
+			cb.PublicKeyCallback = func(c ssh.ConnMetadata, key ssh.PublicKey) (*ssh.Permissions, error) {
+				if _, err := checker.Authenticate(c, key); err != nil {
+					return nil, err
+				}
+				return ok(i, "publickey/"+key.Type())
+			}
+		}
+		return cb
+	}
+	sc := &ssh.ServerConfig{MaxAuthTries: b.maxTries, PublicKeyAuthAlgorithms: b.pkAlgos}
+	first := callbacks(0)
+	sc.PasswordCallback = first.PasswordCallback
+	sc.PublicKeyCallback = first.PublicKeyCallback
+	sc.KeyboardInteractiveCallback = first.KeyboardInteractiveCallback
+	if b.banner {
+		sc.BannerCallback = func(ssh.ConnMetadata) string { return "welcome\n" }
+	}
+	sc.AddHostKey(hostKey.def)
+	return sc
+}
+
+var pkAlgoSets = [][]string{
+	nil,
+	{"rsa-sha2-512", "ssh-ed25519", "ecdsa-sha2-nistp256", "ecdsa-sha2-nistp384", "ecdsa-sha2-nistp521"},
+	{"rsa-sha2-256", "ssh-ed25519", "ecdsa-sha2-nistp256", "ecdsa-sha2-nistp384", "ecdsa-sha2-nistp521"},
+	{"ssh-rsa", "ssh-ed25519", "ecdsa-sha2-nistp256", "ecdsa-sha2-nistp384", "ecdsa-sha2-nistp521"},
+	{"rsa-sha2-256", "rsa-sha2-512", "ssh-ed25519", "ecdsa-sha2-nistp384"},
+	{"ssh-ed25519", "ecdsa-sha2-nistp256", "ecdsa-sha2-nistp521"},
+}
+
+// defaultPKAlgos is the documented default set of ServerConfig.PublicKeyAuthAlgorithms
+// as far as the pool's key types are concerned.
+var defaultPKAlgos = []string{"ssh-ed25519", "ecdsa-sha2-nistp256", "ecdsa-sha2-nistp384", "ecdsa-sha2-nistp521", "rsa-sha2-256", "rsa-sha2-512", "ssh-rsa"}
+
+// signerPasses: would this signer authenticate at the step? The offer must use
+// an algorithm the server lists (anything else is refused as "not accepted")
+// and the key must be authorised.
+func signerPasses(sg *signerSpec, st *bStep, pkAlgos []string) (pass, decided bool) {
+	algos := pkAlgos
+	if algos == nil {
+		algos = defaultPKAlgos
+	}
+	ext := strings.Join(algos, ",")
+	ch := cauth.Choose(sg.model, &ext)
+	if len(ch.Allowed) == 0 {
+		return false, true
+	}
+	in, out := 0, 0
+	for _, a := range ch.Allowed {
+		if slices.Contains(algos, cauth.Underlying(a)) {
+			in++
+		} else {
+			out++
+		}
+	}
+	if in > 0 && out > 0 {
+		return false, false
+	}
+	if in == 0 {
+		return false, true
+	}
+	if sg.cert {
+		return st.trustCA && !sg.badCA, true
+	}
+	for _, k := range st.keys {
+		if bytes.Equal(k, sg.blob) {
+			return true, true
+		}
+	}
+	return false, true
+}
+
+// methodPasses: would the client's method pass the step.
+func methodPasses(m *methodSpec, st *bStep, pkAlgos []string) (pass, decided bool) {
+	switch m.name {
+	case "password":
+		if m.pwErrOnCall > 0 {
+			return false, true
+		}
+		tries := 1
+		if m.wrapped {
+			tries = m.maxTries
+			if tries <= 0 {
+				tries = 1 << 20
+			}
+		}
+		for i := 0; i < len(m.pwList) && i < tries; i++ {
+			if m.pwList[i] == st.password {
+				return true, true
+			}
+		}
+		return false, true
+	case "keyboard-interactive":
+		return m.kiMode == 0, true
+	case "publickey":
+		if m.signersErr {
+			return false, true
+		}
+		decidedAll := true
+		for _, sg := range m.signers {
+			p, d := signerPasses(sg, st, pkAlgos)
+			if !d {
+				decidedAll = false
+			}
+			if p {
+				return true, true
+			}
+		}
+		return false, decidedAll
+	}
+	return false, true
+}
+
+// predict classifies the combination: "compatible" (must authenticate),
+// "incompatible" (must fail) or "order-dependent" (some step can only be
+// passed by a method that already failed at an earlier step, or the outcome
+// depends on an undocumented choice: both outcomes are accepted).
+func predict(spec *clientSpec, b *bServer) string {
+	// naive: every step has a method that passes it
+	for _, st := range b.steps {
+		any := false
+		for _, alt := range st.alts {
+			if m := spec.method(alt); m != nil {
+				p, d := methodPasses(m, st, b.pkAlgos)
+				if !d {
+					return "order-dependent"
+				}
+				if p {
+					any = true
+				}
+			}
+		}
+		if !any {
+			return "incompatible"
+		}
+	}
+	// documented loop: first untried method of Auth that the server lists
+	tried := map[string]bool{}
+	step := 0
+	for guard := 0; guard < 100; guard++ {
+		st := b.steps[step]
+		var next *methodSpec
+		seen := map[string]bool{}
+		for _, m := range spec.methods {
+			if seen[m.name] {
+				continue
+			}
+			seen[m.name] = true
+			if !tried[m.name] && slices.Contains(st.alts, m.name) {
+				next = m
+				break
+			}
+		}
+		if next == nil {
+			return "order-dependent"
+		}
+		if p, _ := methodPasses(next, st, b.pkAlgos); p {
+			step++
+			if step == len(b.steps) {
+				return "compatible"
+			}
+		} else {
+			tried[next.name] = true
+		}
+	}
+	return "order-dependent"
+}
+
+func genB(r *rand.Rand, i int64) (*clientSpec, *bServer) {
+	loadPool()
+	b := &bServer{maxTries: mon.Pick(r, []int{-1, 50, 100}), banner: r.IntN(4) == 0}
+	b.pkAlgos = pkAlgoSets[0]
+	if r.IntN(3) == 0 {
+		b.pkAlgos = mon.Pick(r, pkAlgoSets)
+	}
+	spec := &clientSpec{user: mon.Pick(r, users)}
+	if i < 20 {
+		// directed: every key type, plain and certified, single step
+		k := pool[i%10]
+		cert := i >= 10
+		st := &bStep{alts: []string{"publickey"}, trustCA: cert}
+		if !cert {
+			st.keys = [][]byte{k.blob}
+		}
+		b.steps = []*bStep{st}
+		b.pkAlgos = nil
+		spec.methods = []*methodSpec{{name: "publickey", signers: []*signerSpec{buildSigner(k, kindDefault, nil, cert, false)}}}
+		return spec, b
+	}
+	nsteps := 1 + r.IntN(3)
+	if i%5 == 0 {
+		nsteps = 3
+	}
+	names := []string{"password", "keyboard-interactive", "publickey"}
+	r.Shuffle(3, func(i, j int) { names[i], names[j] = names[j], names[i] })
+	// methods are disjoint across steps, except that publickey may be asked twice (different keys)
+	var stepMethods [][]string
+	switch nsteps {
+	case 1:
+		stepMethods = [][]string{names[:1+r.IntN(3)]}
+	case 2:
+		if r.IntN(2) == 0 {
+			stepMethods = [][]string{names[:1], names[1:2]}
+		} else {
+			stepMethods = [][]string{names[:2], names[2:]}
+		}
+	default:
+		stepMethods = [][]string{names[:1], names[1:2], names[2:]}
+		if r.IntN(4) == 0 {
+			// publickey, x, publickey
+			other := mon.Pick(r, []string{"password", "keyboard-interactive"})
+			stepMethods = [][]string{{"publickey"}, {other}, {"publickey"}}
+		}
+	}
+	need := map[string]bool{}
+	pm := &methodSpec{name: "publickey", viaCallback: r.IntN(3) == 0}
+	decoys := pickKeys(r, 5, nil)
+	for si, ms := range stepMethods {
+		st := &bStep{alts: slices.Clone(ms), password: fmt.Sprintf("secret-%d-%d", si, r.IntN(1000)), kiRounds: 1 + r.IntN(2)}
+		for _, mname := range ms {
+			need[mname] = true
+			if mname == "publickey" {
+				k := decoys[si] // a different identity per step
+				sg := randomSigner(r, k, 0.35)
+				if sg.cert {
+					st.trustCA = true
+				} else {
+					st.keys = append(st.keys, sg.blob)
+				}
+				pm.signers = append(pm.signers, sg)
+			}
+		}
+		b.steps = append(b.steps, st)
+	}
+	// client: the needed methods with the right credentials …
+	var ms []*methodSpec
+	for _, n := range names {
+		if !need[n] && r.IntN(3) != 0 {
+			continue
+		}
+		switch n {
+		case "password":
+			m := &methodSpec{name: n, pwViaCallback: r.IntN(2) == 0}
+			pw := "never-right"
+			for _, st := range b.steps {
+				if slices.Contains(st.alts, n) {
+					pw = st.password
+				}
+			}
+			m.pwList = []string{pw}
+			if r.IntN(4) == 0 { // typed wrongly a few times first
+				m.wrapped, m.maxTries = true, mon.Pick(r, []int{0, -1, 2, 3, 4})
+				wrong := 1 + r.IntN(3)
+				m.pwList = nil
+				for j := 0; j < wrong; j++ {
+					m.pwList = append(m.pwList, fmt.Sprintf("typo-%d", j))
+				}
+				m.pwList = append(m.pwList, pw)
+			}
+			ms = append(ms, m)
+		case "keyboard-interactive":
+			m := &methodSpec{name: n}
+			if r.IntN(5) == 0 {
+				m.wrapped, m.maxTries = true, 2
+			}
+			ms = append(ms, m)
+		case "publickey":
+			if r.IntN(2) == 0 { // decoy identities the server does not know
+				for _, k := range decoys[3:] {
+					if r.IntN(2) == 0 {
+						pm.signers = append(pm.signers, randomSigner(r, k, 0.3))
+					}
+				}
+			}
+			r.Shuffle(len(pm.signers), func(i, j int) { pm.signers[i], pm.signers[j] = pm.signers[j], pm.signers[i] })
+			ms = append(ms, pm)
+		}
+	}
+	r.Shuffle(len(ms), func(i, j int) { ms[i], ms[j] = ms[j], ms[i] })
+	spec.methods = ms
+	// … then, sometimes, one corruption
+	if r.IntN(3) == 0 && len(ms) > 0 {
+		m := mon.Pick(r, ms)
+		switch m.name {
+		case "password":
+			switch r.IntN(3) {
+			case 0:
+				m.pwList = []string{"wrong"}
+			case 1:
+				m.pwErrOnCall = 1
+			default:
+				spec.methods = slices.DeleteFunc(spec.methods, func(x *methodSpec) bool { return x == m })
+			}
+		case "keyboard-interactive":
+			// (a challenge callback that aborts in the middle of the exchange is not
+			// used here: the Go server's Challenge swallows the client's next
+			// request, which is a server-side matter outside this property)
+			switch r.IntN(2) {
+			case 0:
+				m.kiMode = 3
+			default:
+				spec.methods = slices.DeleteFunc(spec.methods, func(x *methodSpec) bool { return x == m })
+			}
+		case "publickey":
+			switch r.IntN(5) {
+			case 0: // drop one signer
+				if len(m.signers) > 0 {
+					j := r.IntN(len(m.signers))
+					m.signers = slices.Delete(slices.Clone(m.signers), j, j+1)
+				}
+			case 1: // certificate of a CA the server does not trust
+				for j, sg := range m.signers {
+					if sg.cert {
+						m.signers[j] = buildSigner(sg.key, sg.kind, sg.order, true, true)
+						break
+					}
+				}
+			case 2:
+				m.signersErr = true
+			case 3: // the server stops trusting / knowing the keys of one step
+				st := mon.Pick(r, b.steps)
+				st.keys, st.trustCA = nil, false
+			default:
+				spec.methods = slices.DeleteFunc(spec.methods, func(x *methodSpec) bool { return x == m })
+			}
+		}
+	}
+	if r.IntN(6) == 0 {
+		spec.cbMode = mon.Pick(r, []int{cbNil, cbTable})
+	}
+	return spec, b
+}
+
+// tapLog turns the client-side tap into the dialogue log the monitor of Setup A
+// judges.
+func tapLog(d *dlog) *ssh.VerifTap {
+	var mu sync.Mutex
+	pending := ""
+	return &ssh.VerifTap{
+		KeyChange: func(_ ssh.NegotiatedAlgorithms, k ssh.VerifKexResult) {
+			d.mu.Lock()
+			if d.sessionID == nil {
+				d.sessionID = slices.Clone(k.SessionID)
+			}
+			d.mu.Unlock()
+		},
+		BeforeWrite: func(_ uint32, p []byte) {
+			if len(p) == 0 || (p[0] < 50 && p[0] != cauth.MsgServiceRequest) {
+				return
+			}
+			m, err := cauth.ParseClient(p)
+			e := event{Kind: "C", C: m}
+			if err != nil {
+				e.CErr = err.Error()
+			}
+			if m != nil && m.Type == cauth.MsgUserAuthRequest {
+				mu.Lock()
+				pending = m.Method
+				mu.Unlock()
+			}
+			d.add(e)
+		},
+		AfterRead: func(_ uint32, p []byte, err error) {
+			if err != nil || len(p) == 0 {
+				return
+			}
+			if p[0] < 50 && p[0] != cauth.MsgExtInfo && p[0] != cauth.MsgServiceAccept && p[0] != cauth.MsgDisconnect {
+				return
+			}
+			if p[0] >= 80 {
+				return
+			}
+			mu.Lock()
+			pm := pending
+			mu.Unlock()
+			sm, _ := cauth.ParseServer(p, pm)
+			if sm == nil {
+				return
+			}
+			e := event{Kind: "S", SType: sm.Kind, Methods: sm.Methods, Partial: sm.Partial, PKAlgo: sm.Algo, PKBlob: sm.KeyBlob}
+			if sm.Kind == "extinfo" {
+				d.mu.Lock()
+				seenAccept := false
+				for _, x := range d.ev {
+					if x.Kind == "S" && x.SType == "svcaccept" {
+						seenAccept = true
+					}
+				}
+				if !seenAccept {
+					for _, kv := range sm.Exts {
+						if kv[0] == "server-sig-algs" {
+							v := kv[1]
+							d.sigAlgs = &v
+						}
+					}
+				}
+				d.mu.Unlock()
+			}
+			d.add(e)
+		},
+	}
+}
+
+func runSetupB(m *mon.M) {
+	total := m.N(400, 8000)
+	m.Cases("goserver", total, func(i int64, r *rand.Rand) {
+		spec, b := genB(r, i)
+		want := predict(spec, b)
+		rec := &bRecord{}
+		sc := b.config(rec)
+		d := &dlog{transport: "go-server"}
+		cfg := spec.build(d)
+		tapped := i%2 == 0
+		cconn, sconn := duplex()
+		var srvErr error
+		var sconnOK *ssh.ServerConn
+		srvDone := make(chan struct{})
+		go func() {
+			defer close(srvDone)
+			sc2, chans, reqs, err := ssh.NewServerConn(sconn, sc)
+			srvErr = err
+			if err != nil {
+				sconn.Close()
+				return
+			}
+			sconnOK = sc2
+			go func() {
+				for nc := range chans {
+					nc.Reject(ssh.Prohibited, "no channels")
+				}
+			}()
+			ssh.DiscardRequests(reqs)
+			sc2.Close()
+		}()
+		var cliErr error
+		done, pv, pstack, dump := mon.RunTimed(60*time.Second, func() {
+			var conn ssh.Conn
+			var err error
+			if tapped {
+				conn, _, _, err = ssh.VerifNewClientConn(cconn, "c34.example:22", cfg, tapLog(d))
+			} else {
+				conn, _, _, err = ssh.NewClientConn(cconn, "c34.example:22", cfg)
+			}
+			cliErr = err
+			d.mu.Lock()
+			d.clientErr, d.clientOK = err, err == nil
+			d.mu.Unlock()
+			if err == nil {
+				_, _, perr := conn.SendRequest("c34-probe@verif", true, nil)
+				d.mu.Lock()
+				d.probeErr = perr
+				d.mu.Unlock()
+				conn.Close()
+			}
+			<-srvDone
+		})
+		wit := map[string]any{"client": spec.describe(), "server": b.describe(), "predicted": want, "tapped": tapped}
+		if pv != nil {
+			wit["panic"], wit["stack"] = fmt.Sprint(pv), pstack
+			m.Violation("panic:"+mon.PanicSite(pstack), wit)
+			return
+		}
+		if !done {
+			_ = dump
+			judgeHang(m, "go-server", dump, wit, d)
+			return
+		}
+		m.Eval()
+		wit["client_error"], wit["server_error"] = fmt.Sprint(cliErr), fmt.Sprint(srvErr)
+		wit["server_passed"] = rec.passed
+		if tapped {
+			wit["trace"] = d.trace(80)
+		}
+		okC, okS := cliErr == nil, srvErr == nil
+		m.Count("b_predicted:"+want, 1)
+		m.Count(fmt.Sprintf("b_chain_len:%d", len(b.steps)), 1)
+		m.Distinct(fmt.Sprintf("B %s steps=%d ok=%v", want, len(b.steps), okC))
+		if okC != okS {
+			m.Violation("go-server:client-and-server-disagree-on-outcome", wit)
+		}
+		switch want {
+		case "compatible":
+			if okC && okS {
+				m.Count("b_compatible_authenticated", 1)
+				for _, p := range rec.passed {
+					m.Count("b_passed:"+p, 1)
+				}
+				if len(rec.passed) != len(b.steps) {
+					m.Violation("go-server:authenticated-with-fewer-steps-than-the-chain", wit)
+				}
+				if sconnOK != nil && sconnOK.User() != spec.user {
+					m.Violation("go-server:authenticated-as-another-user", wit)
+				}
+				if i < 20 {
+					m.Count("b_directed_keytype_authenticated", 1)
+				}
+			} else if !okC {
+				m.Violation("go-server:compatible-combination-did-not-authenticate", wit)
+			}
+		case "incompatible":
+			if okC || okS {
+				m.Violation("go-server:incompatible-combination-authenticated", wit)
+			} else {
+				m.Count("b_incompatible_failed", 1)
+			}
+		default:
+			m.Count("b_order_dependent_outcome_ok:"+fmt.Sprint(okC), 1)
+		}
+		if i < 2 {
+			m.Sample(map[string]any{"setup": "B", "client": spec.describe(), "server": b.describe(), "predicted": want, "client_error": fmt.Sprint(cliErr)})
+		}
+		if tapped {
+			fs, st := judge(spec, nil, d)
+			for k, v := range st {
+				m.Count("b_tap:"+k, v)
+			}
+			for _, f := range fs {
+				f.detail["server"] = b.describe()
+				m.Violation(f.key, f.detail)
+			}
+		}
+	})
+	m.Gate("b_directed_keytype_authenticated", 20, "every pool key type, plain and certified, authenticated against the Go server")
+}
